@@ -151,10 +151,6 @@ async fn send_impl<T, Codec>(
     T: Serialize + Send + 'static,
     Codec: codec::Codec,
 {
-    #[cfg(remoc_verif)]
-    let verif_port = raw_tx.local_port() as u64;
-    #[cfg(remoc_verif)]
-    crate::verif::emit("mpsc_send_impl_start", &[("local", verif_port)]);
     // Encode data using remote sender.
     let mut remote_tx = base::Sender::<Result<T, RecvError>, Codec>::new(raw_tx);
     remote_tx.set_max_item_size(max_item_size);
@@ -205,12 +201,8 @@ async fn send_impl<T, Codec>(
                 match value_opt {
                     Some(value) => {
                         let SendReq { value, result_tx } = value;
-                        #[cfg(remoc_verif)]
-                        crate::verif::emit("mpsc_send_impl_item", &[("local", verif_port)]);
                         match remote_tx.send(value).await {
                             Ok(()) => {
-                                #[cfg(remoc_verif)]
-                                crate::verif::emit("mpsc_send_impl_sent", &[("local", verif_port)]);
                                 let _ = result_tx.send(Ok(()));
                             }
                             Err(err) => {
